@@ -33,6 +33,16 @@
      case   5 5 seed role fkind variant dmode | L payload | L remote_static | opt(dialed)
             | curve table | ed25519 table                  as in kind 1
      trace  5 | class [L id] | miss
+   kind 7 (by-hand stream, harness_c01x: the TLS certificate checks of the QUIC transport on crafted
+   certificates; class 13 = BadDer, 14 = ExtensionValueInvalid, 5 = UnknownIssuer, 8 = wrong peer):
+     case   7 n params.. | ext: 0 / 1 L key L sig / 2 (malformed) / 3 (duplicate) | L spki
+            | intermediates | opt(expected) | curve table | ed25519 table
+     trace  7 | class [L id] (verify_server_cert) | class [L id] (verify_client_cert) | miss
+   kind 8 (by-hand stream: NoiseContext::with_prologue + get_remote_peer_id, the WebRTC caller,
+   against a snow responder; the two prologues are computed from fingerprints by each side):
+     case   8 n params.. | L payload | L remote_static | L prologue_litep2p | L prologue_remote
+            | curve table | ed25519 table
+     trace  8 | class [L id] | miss
    kind 4 (negotiate_connection over loopback TCP, honest peers):
      case   4 3 seed modeD modeL | L idD | L idL | opt(dialed by D) | opt(dialed by L)
      trace  4 | class [L id] (dialer) | class [L id] (listener)
@@ -74,6 +84,7 @@ Definition err_class (e : err) : N :=
   match e with
   | EPayload => 3 | EKeyMissing => 4 | EKeyProto => 3 | EKeyType => 6 | EKeyInvalid => 7
   | ESigMissing => 5 | ESigBad => 5 | EMismatch => 8
+  | ETlsNoExt => 13 | ETlsExtValue => 14 | ETlsIssuer => 5
   end.
 
 Definition enc_result (r : result) : list N :=
@@ -102,7 +113,15 @@ Record k2 := mkK2 {
 }.
 Record k4 := mkK4 { k4_idD : bytes; k4_idL : bytes; k4_dD : option bytes; k4_dL : option bytes }.
 
-Inductive case := C1 (c : k1) | C2 (c : k2) | C4 (c : k4) | C5 (c : k1) | C6 (c : k4).
+Inductive k7ext := X7None | X7Ext (k sg : bytes) | X7Malformed | X7Dup.
+Record k7 := mkK7 {
+  k7_ext : k7ext; k7_spki : bytes; k7_inter : N; k7_exp : option bytes;
+  k7_curve : list (bytes * bool); k7_ver : list (bytes * bytes * bytes * bool)
+}.
+Record k8 := mkK8 { k8_c : k1; k8_proI : bytes; k8_proR : bytes }.
+
+Inductive case :=
+| C1 (c : k1) | C2 (c : k2) | C4 (c : k4) | C5 (c : k1) | C6 (c : k4) | C7 (c : k7) | C8 (c : k8).
 
 Definition p_params : parser unit :=
   let* n := pN in let* _ := prep (N.to_nat (N.min n 16)) pN in pret tt.
@@ -123,6 +142,20 @@ Definition p_case : parser case :=
   | 2 => let* a := pL in let* b := pL in let* s1 := pL in let* s2 := pL in let* s3 := pL in
          let* d1 := pL in let* d2 := pL in let* ew := pL in pret (C2 (mkK2 a b s1 s2 s3 d1 d2 ew))
   | 6 => let* a := pL in let* b := pL in let* x := pOpt in pret (C6 (mkK4 a b x None))
+  | 7 => let* t := pN in
+         let* x := (match t with
+                    | 0 => pret X7None
+                    | 1 => let* k := pL in let* sg := pL in pret (X7Ext k sg)
+                    | 2 => pret X7Malformed
+                    | 3 => pret X7Dup
+                    | _ => pfail
+                    end) in
+         let* spki := pL in let* n := pN in let* e := pOpt in
+         let* cv := plist p_curve in let* vt := plist p_ver in
+         pret (C7 (mkK7 x spki n e cv vt))
+  | 8 => let* pb := pL in let* rs := pL in let* pi := pL in let* pr := pL in
+         let* cv := plist p_curve in let* vt := plist p_ver in
+         pret (C8 (mkK8 (mkK1 pb rs None cv vt) pi pr))
   | 4 => let* a := pL in let* b := pL in let* x := pOpt in let* y := pOpt in
          pret (C4 (mkK4 a b x y))
   | _ => pfail
@@ -142,6 +175,18 @@ Definition well_formed (c : case) : bool :=
       bytes_ok (k2_idD c) && bytes_ok (k2_idL c) && (len (k2_idD c) =? 32) &&
       (len (k2_idL c) =? 32) && bytes_ok (k2_s1 c) && bytes_ok (k2_s2 c) && bytes_ok (k2_s3 c) &&
       bytes_ok (k2_dDL c) && bytes_ok (k2_dLD c) && bytes_ok (k2_early c)
+  | C7 c =>
+      (match k7_ext c with X7Ext k sg => bytes_ok k && bytes_ok sg | _ => true end) &&
+      bytes_ok (k7_spki c) && obytes_ok (k7_exp c) &&
+      forallb (fun e => bytes_ok (fst e)) (k7_curve c) &&
+      forallb (fun e => match e with (k, m, s, _) => bytes_ok k && bytes_ok m && bytes_ok s end)
+              (k7_ver c)
+  | C8 c =>
+      bytes_ok (k1_pb (k8_c c)) && bytes_ok (k1_rs (k8_c c)) && bytes_ok (k8_proI c) &&
+      bytes_ok (k8_proR c) &&
+      forallb (fun e => bytes_ok (fst e)) (k1_curve (k8_c c)) &&
+      forallb (fun e => match e with (k, m, s, _) => bytes_ok k && bytes_ok m && bytes_ok s end)
+              (k1_ver (k8_c c))
   | C4 c | C6 c =>
       bytes_ok (k4_idD c) && bytes_ok (k4_idL c) && (len (k4_idD c) =? 32) &&
       (len (k4_idL c) =? 32) && obytes_ok (k4_dD c) && obytes_ok (k4_dL c)
@@ -377,6 +422,70 @@ Definition run5 (c : k1) : list N :=
   | None => [0]
   end.
 
+(* kind 7: the TLS certificate decision *)
+Definition tls_ext_of (x : k7ext) : tls_ext :=
+  match x with
+  | X7None => TlsNone | X7Dup => TlsDuplicate | X7Malformed => TlsMalformed
+  | X7Ext k sg => TlsExt k sg
+  end.
+
+Definition k7_miss (c : k7) : bool :=
+  match k7_ext c with
+  | X7Ext kb sg =>
+      match decode_keymsg kb with
+      | Some m =>
+          if (k_type m =? 1) && (len (k_data m) =? 32) then
+            match look_curve (k7_curve c) (k_data m) with
+            | None => true
+            | Some false => false
+            | Some true =>
+                match look_ver (k7_ver c) (k_data m) (TLS_PREFIX ++ k7_spki c) sg with
+                | None => true
+                | Some _ => false
+                end
+            end
+          else false
+      | None => false
+      end
+  | _ => false
+  end.
+
+Definition run7 (c : k7) : list N :=
+  let oc := fun k => match look_curve (k7_curve c) k with Some b => b | None => false end in
+  let vf := fun k m s => match look_ver (k7_ver c) k m s with Some b => b | None => false end in
+  match dialed_pid (k7_exp c) with
+  | Some e =>
+      if 0 <? k7_inter c then [7; 10; 10; 0]     (* "libp2p-tls requires exactly one certificate" *)
+      else
+        7 :: enc_result (tls_accept oc vf (tls_ext_of (k7_ext c)) (k7_spki c) e) ++
+        enc_result (tls_accept oc vf (tls_ext_of (k7_ext c)) (k7_spki c) None) ++ [b2n (k7_miss c)]
+  | None => [0]
+  end.
+
+(* kind 8: the WebRTC caller — litep2p is the Noise initiator with its prologue, the remote a
+   responder with its own; run through the symbolic transcript with the real payload bytes, the
+   real remote static key and the real ed25519 verdicts *)
+Definition name_of_f (pk : N -> bytes) (P : bytes) : option N :=
+  if beq P (pk 1) then Some 1 else if beq P (pk 2) then Some 2
+  else if beq P (pk 3) then Some 3 else if beq P (pk 4) then Some 4 else None.
+Definition dh_f (pk : N -> bytes) (x : N) (P : bytes) : bytes :=
+  match name_of_f pk P with
+  | Some y => [0; N.min x y; N.max x y]
+  | None => 1 :: x :: P
+  end.
+
+Definition run8 (c : k8) : list N :=
+  let k := k8_c c in
+  let eD := repeat 1 32 in
+  let eLr := repeat 2 32 in
+  let pk := fun x => if x =? 4 then k1_rs k else pubk_i eD eLr x in
+  let dhf := dh_f pk in
+  let D := mkParty 1 3 [] None (k8_proI c) in
+  let L := mkParty 2 4 (k1_pb k) None (k8_proR c) in
+  let a2 := DMsg (l_msg2 H_inst KDF_inst pk dhf L (d_msg1 pk D)) in
+  let '(_, oD) := d_run (curve_of k) (verify_of k) H_inst KDF_inst pk dhf D a2 in
+  8 :: enc_outcome oD ++ [b2n (k1_miss k)].
+
 (* the public API: the listener reports nothing unless the connection was established *)
 Definition run6 (c : k4) : list N :=
   match run4 c with
@@ -395,6 +504,8 @@ Definition run_case (l : list N) : list N :=
   | Some (C2 c) => run2 c
   | Some (C4 c) => run4 c
   | Some (C6 c) => run6 c
+  | Some (C7 c) => run7 c
+  | Some (C8 c) => run8 c
   | None => [0]
   end.
 
@@ -524,6 +635,38 @@ Definition prop_ok (case trace : list N) : bool :=
       | 5 :: rest =>
           match pall (let* a := p_res in let* _ := pN in pret a) rest with
           | Some r => ok_res1 c r && (if fst r =? 0 then dialed_ok (k1_dialed c) (snd r) else true)
+          | None => false
+          end
+      | _ => false
+      end
+  | Some (C7 c) =>
+      match trace with
+      | 7 :: rest =>
+          match pall (let* a := p_res in let* b := p_res in let* _ := pN in pret (a, b)) rest with
+          | Some (rS, rC) =>
+              let auth := fun P =>
+                match k7_ext c with
+                | X7Ext kb sg =>
+                    existsb (fun e => match e with
+                                      | (k, m, sg', ok) =>
+                                          ok && beq m (TLS_PREFIX ++ k7_spki c) && beq (id_bytes k) P &&
+                                          infix k kb && beq sg' sg
+                                      end) (k7_ver c)
+                | _ => false
+                end in
+              (if fst rS =? 0 then auth (snd rS) && dialed_ok (k7_exp c) (snd rS) && (k7_inter c =? 0)
+               else true) &&
+              (if fst rC =? 0 then auth (snd rC) && (k7_inter c =? 0) else true)
+          | None => false
+          end
+      | _ => false
+      end
+  | Some (C8 c) =>
+      match trace with
+      | 8 :: rest =>
+          match pall (let* a := p_res in let* _ := pN in pret a) rest with
+          | Some r =>
+              if fst r =? 0 then authentic (k8_c c) (snd r) && beq (k8_proI c) (k8_proR c) else true
           | None => false
           end
       | _ => false
